@@ -278,3 +278,87 @@ Lemma clone_guard_witness :
   owner_or_clone_seq clone_setup_decls [clone_loop; clone_loop] = true /\
   single_owner_seq clone_setup_decls [clone_loop; clone_loop] = false.
 Proof. split; vm_compute; reflexivity. Qed.
+
+(* ------------------------------------------------------------------ the re-assignment leak, for every number of passes *)
+Definition items3 : list Z := [1; 2; 3]%Z.
+
+(* firmware state reached by the re-assignment program: one global list of 3 cells; [c] live cells *)
+Definition RJ (c : nat) (st : fstate) : Prop :=
+  f_loc st = [] /\ exists b, f_glob st = [(0%Z, mklist (Some b) 3)] /\
+  rep (f_heap st) (mklist (Some b) 3) items3 /\ live_cells (f_heap st) = c.
+
+Lemma reassign_pass_fw : forall c st, RJ c st ->
+  exists st', run_pass leak_reassign_body st = Safe (st', []) /\ RJ (c + 3) st'.
+Proof.
+  intros c [h g lo] (Hl & b & Hg & Hr & Hc). simpl in *. subst lo g.
+  unfold run_pass, leak_reassign_body. cbn [f_block f_exec f_heap].
+  rewrite make_spec. cbn [rbind]. fold items3.
+  set (h1 := h ++ [mkblock items3 true]).
+  set (tmp := mklist (Some (length h)) (length items3)).
+  assert (Hb : b < length h) by (eapply rep_bound; eauto; reflexivity).
+  assert (Hr1 : rep h1 (mklist (Some b) 3) items3).
+  { eapply rep_frame; eauto. intros b0 E. simpl in E. injection E as <-. unfold h1. now apply nth_error_app_old. }
+  assert (Ht : rep h1 tmp items3).
+  { unfold rep, tmp, h1. simpl. rewrite nth_error_app_new. repeat split; auto. discriminate. }
+  assert (Hlk : f_lookup (mkf h [(0%Z, mklist (Some b) 3)] []) 0%Z = mklist (Some b) 3) by reflexivity.
+  rewrite Hlk.
+  assert (D : data (mklist (Some b) 3) = None \/ data (mklist (Some b) 3) <> data tmp).
+  { right. simpl. intro E. injection E as E. lia. }
+  rewrite (assign_spec h1 _ tmp items3 items3 Hr1 Ht D). cbn [rbind]. unfold items3 at 1. cbv iota.
+  eexists. split; [reflexivity|].
+  unfold RJ. simpl. split; auto. eexists. split; [reflexivity|].
+  destruct (kill_counts h1 _ items3 Hr1) as [_ KC]. simpl in KC.
+  split.
+  - unfold rep. simpl. rewrite <- (kill_length h1 (Some b)). rewrite nth_error_app_new. repeat split; auto. discriminate.
+  - rewrite live_cells_app. unfold h1 in *. rewrite live_cells_app in KC. simpl in *. lia.
+Qed.
+
+Lemma reassign_passes_fw : forall n c st, RJ c st ->
+  exists st', run_passes leak_reassign_body st n = Safe st' /\ RJ (c + 3 * n) st'.
+Proof.
+  induction n as [|n IH]; intros c st J; cbn [run_passes].
+  - exists st. split; auto. replace (c + 3 * 0) with c by lia. exact J.
+  - destruct (reassign_pass_fw c st J) as (st1 & E & J1). rewrite E. cbn [rbind fst].
+    destruct (IH (c + 3) st1 J1) as (st2 & E2 & J2). exists st2. split; auto.
+    replace (c + 3 * S n) with (c + 3 + 3 * n) by lia. exact J2.
+Qed.
+
+Definition PR (pst : pstate) : Prop :=
+  p_loc pst = [] /\ exists o, p_glob pst = [(0%Z, o)] /\ o < length (p_objs pst) /\ nth o (p_objs pst) [] = items3.
+
+Lemma reassign_pass_py : forall pst, PR pst ->
+  exists pst', py_pass leak_reassign_body pst = POk (pst', []) /\ PR pst' /\ p_live pst' = 3.
+Proof.
+  intros [objs gl lo] (Hl & o & Hg & Ho & Hn). simpl in *. subst lo gl.
+  unfold py_pass, leak_reassign_body. cbn [p_block p_exec pbind]. eexists. split; [reflexivity|].
+  unfold p_new, p_bind, has, PR, p_live, p_obj. simpl.
+  split; [split; auto; eexists; split; [reflexivity|]|].
+  - rewrite app_length. simpl. split; [lia|]. rewrite app_nth2 by lia. now rewrite Nat.sub_diag.
+  - rewrite app_nth2 by lia. now rewrite Nat.sub_diag.
+Qed.
+
+Lemma reassign_passes_py : forall n pst, PR pst -> p_live pst = 3 ->
+  exists pst', py_passes leak_reassign_body pst n = POk pst' /\ PR pst' /\ p_live pst' = 3.
+Proof.
+  induction n as [|n IH]; intros pst J L; cbn [py_passes].
+  - exists pst. auto.
+  - destruct (reassign_pass_py pst J) as (p1 & E & J1 & L1). rewrite E. cbn [pbind fst]. now apply IH.
+Qed.
+
+(* one block of 3 cells leaked per pass by the re-assignment temporary, for EVERY number of passes *)
+Lemma leak_reassign_all : forall n,
+  exists st pst, run_fw leak_reassign_setup leak_reassign_body n = Safe st /\
+                 run_py leak_reassign_setup leak_reassign_body n = POk pst /\
+                 f_live_cells st = 3 + 3 * n /\ p_live pst = 3.
+Proof.
+  intros n. unfold run_fw, run_py.
+  assert (S0 : exists st0, run_setup leak_reassign_setup = Safe (st0, []) /\ RJ 3 st0).
+  { eexists. split; [vm_compute; reflexivity|]. unfold RJ. simpl. split; auto. exists 0. repeat split; auto. discriminate. }
+  assert (P0 : exists p0, py_setup leak_reassign_setup = POk (p0, []) /\ PR p0 /\ p_live p0 = 3).
+  { eexists. split; [vm_compute; reflexivity|]. unfold PR. simpl. split; [|reflexivity]. split; auto. exists 0. auto. }
+  destruct S0 as (st0 & E0 & J0). destruct P0 as (p0 & F0 & K0 & L0).
+  rewrite E0, F0. cbn [rbind pbind fst].
+  destruct (reassign_passes_fw n 3 st0 J0) as (st & E & (_ & b & _ & _ & C)).
+  destruct (reassign_passes_py n p0 K0 L0) as (pst & F & _ & L).
+  exists st, pst. repeat split; auto.
+Qed.
